@@ -44,6 +44,10 @@ pub fn payloads() -> Vec<(&'static str, Vec<u8>)> {
         ("ansi-osc", b"\x1b]0;title\x07x\x1b]8;;http://e\x1b\\y\n".to_vec()),
         ("ansi-osc-unterminated", b"a\n\x1b]b\nc\nd\n".to_vec()),
         ("ansi-next-to-controls", b"t\tb\x07\x1b[31mred\x1b[0m\0\xff\n".to_vec()),
+        // the two output transformations together: an escape sequence between a CR and its LF (the CR is not part of a
+        // CR LF pair in what the command wrote and has to stay), and CR LF pairs right behind / before escape sequences
+        ("ansi-between-cr-and-lf", b"a\r\x1b[K\nb\n".to_vec()),
+        ("ansi-around-crlf", b"\x1b[1ma\x1b[0m\r\n\x1b[2Kb\r\n".to_vec()),
     ]
 }
 
